@@ -181,6 +181,10 @@ func ExecuteC17(t *testing.T, plan *Plan) *RunResult {
 			served = "MyChart0-1.0.0.tgz"
 		case "ext-case":
 			served = "mychart0-1.0.0.TGZ"
+		case "targz":
+			served = "mychart0-1.0.0.tar.gz" // not the name the provenance lists, and not a .tgz: still to be verified, not waved through
+		case "noext":
+			served = "mychart0-1.0.0"
 		}
 	}
 	var opErr error
@@ -379,7 +383,7 @@ func genC17(seed, index uint64, tier string) *Plan {
 		c.Target = "prov"
 	case 3:
 		c.Rename = true
-		c.RenameTo = g.Pick("", "case", "ext-case")
+		c.RenameTo = g.Pick("", "case", "ext-case", "targz", "noext")
 	case 4:
 		c.SwapProv = true
 	}
@@ -441,6 +445,8 @@ func ExecuteC20b(t *testing.T, plan *Plan) *RunResult {
 		base := "https://repo1.example.com/charts/mychart0-1.0.0.tgz"
 		n.Artefacts["chart"], n.Artefacts["prov"] = archive, prov
 		n.Artefacts["index"] = indexYAML("mychart0", base)
+		// the index as it was before the publisher's last update: same layout, the entry had no downloadable URL yet
+		n.Artefacts["index:old"] = bytes.Replace(n.Artefacts["index"], []byte("    urls:\n    - \""+base+"\"\n"), []byte("    urls: []\n    digest: \"\"\n"), 1)
 		routes := map[string]*Route{"index": {Artefact: "index"}, "chart": {Artefact: "chart"}, "prov": {Artefact: "prov"}}
 		if spec.Transit != nil {
 			tr := *spec.Transit
@@ -478,6 +484,11 @@ func ExecuteC20b(t *testing.T, plan *Plan) *RunResult {
 			}
 			what = "IndexFile.Get"
 			if _, err := ix.Get("mychart0", ""); err != nil {
+				opErr = err
+				return
+			}
+			what = "FindChartInRepoURL"
+			if _, err := repo.FindChartInRepoURL("https://repo1.example.com", "mychart0", netProviders(n), repo.WithChartVersion("1.0.0")); err != nil {
 				opErr = err
 				return
 			}
@@ -573,6 +584,10 @@ func genC20b(g *Gen, seed, index uint64) *Plan {
 			tr.StallS = 100000
 		} else {
 			tr.Corrupt = g.Pick("bitflip", "bitflip", "byte", "truncate", "truncate", "prefix", "suffix", "empty")
+			if spec.Target == "index" && g.Chance(0.3) {
+				tr.Corrupt = "torn"
+				tr.Pos = int(index / 4) // consecutive plans sweep the tear positions
+			}
 		}
 		if spec.Target == "index" && tr.Corrupt == "truncate" {
 			tr.Pos = int(index / 4) // consecutive plans sweep every cut position of the (short) index file
